@@ -53,7 +53,7 @@ public:
    *
    * @return An empty string.
    */
-  std::string unparseRemainingTokens() const { return ""; }
+  std::string unparseRemainingTokens() const override { return ""; }
 };
 } // end of namespace bpp;
 #endif // BPP_TEXT_NESTEDSTRINGTOKENIZER_H
